@@ -127,16 +127,22 @@ func (r *RequestContext) Cookie(name string) string {
 
 func (r *RequestContext) Body() any {
 	if r.savedBody == nil {
+		// envoy sends the body either as bytes (if pack_as_bytes is set), or as string
+		rawBody := r.reqRawBody
+		if len(rawBody) == 0 {
+			rawBody = []byte(r.reqBody)
+		}
+
 		decoder, err := contenttype.NewDecoder(r.Header("Content-Type"))
 		if err != nil {
-			r.savedBody = string(r.reqRawBody)
+			r.savedBody = string(rawBody)
 
 			return r.savedBody
 		}
 
-		data, err := decoder.Decode(r.reqRawBody)
+		data, err := decoder.Decode(rawBody)
 		if err != nil {
-			r.savedBody = string(r.reqRawBody)
+			r.savedBody = string(rawBody)
 
 			return r.savedBody
 		}
